@@ -101,6 +101,9 @@ def iterateMap (sid : Nat) (k : Key) : HM V (List V) := do
   | some m => pure (m.map (·.1))
   | none => throw "ClearedSlot"
 
+/-- an int value used as a key component / slot index -/
+def toIdx [PyAlg V] (v : V) : HM V Nat := liftM (PyAlg.toNat v)
+
 /-- a group index read with `get_map` used as a key component -/
 def unmarkN (m : Option Nat) : HM V Nat :=
   match m with
